@@ -30,6 +30,10 @@ var strTab = []sv{
 	{`"café \"q\" \\ <b>&amp;\n\ttab"`, "café \"q\" \\ <b>&amp;\n\ttab"},
 	{`"日本 😀 \/ é"`, "日本 \U0001F600 / é"},
 	{`" lead & trail "`, " lead & trail "},
+	// control characters and DEL: JSON escapes them as \u00XX, Go-literal quoting does not
+	{`"ctl \u0007 \u000b \u007f \u0001 end"`, "ctl \a \v \x7f \x01 end"},
+	// a non-printable code point outside the BMP and the JS line separators
+	{`"tagchar \udb40\udc01 ls \u2028 ps \u2029"`, "tagchar \U000E0001 ls \u2028 ps \u2029"},
 }
 
 type fv struct {
